@@ -89,7 +89,7 @@ class COSPricer:
         :param x: space parameter
         :return: the value of the cumulative function in (t,x)
         """
-        return 1 - self.digital(strikes=x, time=time)
+        return 1 - self.digital(strikes=x, time=time) / self.model.df(t=time)
 
     @staticmethod
     def psi(ks: NDArray[int], a: float, b: float, c: float, d: float):
